@@ -428,6 +428,14 @@ class ExprMixin:
             self.may_raise("KeyError", z3.Select(ty.dom(base.t), k.t), node, "key")
             place = ("item", base.place, k.t, ty) if base.place is not None else None
             return SV(ty.val, z3.Select(ty.val_(base.t), k.t), place)
+        if isinstance(ty, sorts.TRecord):
+            k = z3.simplify(idx.t)
+            if not z3.is_string_value(k) or k.as_string() not in ty.fields:
+                raise Unsupported("record key must be a declared constant", node)
+            key = k.as_string()
+            r = SV(ty.fields[key], ty.get(base.t, key))
+            self.ctx.assume_wf(r)
+            return r
         if isinstance(ty, TTuple):
             i = self.const_int(idx, node)
             if i < 0:
